@@ -140,6 +140,8 @@ class Patched:
 
 
 def exc_code(e):
+    if isinstance(e, Livelock):
+        return 3   # Model.ELOOP
     if isinstance(e, OSError):
         return 1
     if isinstance(e, KeyError):
@@ -177,10 +179,12 @@ def finish(inst, limiter, d, names, k, status):
     """state before close(), then close(), leak count, files"""
     try:
         open_keys = [inst.pid(p) for p, v in limiter.openHandles.items() if 'handle' in v]
-        seen = sorted(inst.pid(p) for p in limiter.seen)
+        known = [p for p in limiter.seen if os.path.basename(str(p)) in inst.pid_of_path]
+        seen_foreign = sorted(str(p) for p in limiter.seen if os.path.basename(str(p)) not in inst.pid_of_path)[:3]
+        seen = sorted(inst.pid(p) for p in known)
         ctr = limiter.pruneIntervalCounter
     except Exception as e:
-        open_keys, seen, ctr = 'error: %r' % (e,), [], -1
+        open_keys, seen, ctr, seen_foreign = 'error: %r' % (e,), [], -1, []
     close_error = None
     try:
         limiter.close()
@@ -189,7 +193,7 @@ def finish(inst, limiter, d, names, k, status):
     leaked = inst.nopen   # proxies not closed through close(): descriptors the writer lost track of
     files, errs = read_back(d, names)
     return {'k': k, 'status': status, 'trace': inst.trace, 'open': open_keys, 'seen': seen, 'ctr': ctr,
-            'close_error': close_error, 'leaked': leaked, 'files': files, 'read_errors': errs,
+            'close_error': close_error, 'leaked': leaked, 'seen_foreign': seen_foreign, 'files': files, 'read_errors': errs,
             'unknown_paths': inst.unknown_paths[:5]}
 
 
